@@ -391,7 +391,7 @@ impl Parser {
         Ok(Expr::new(ExprKind::FmtString(result), span))
     }
 
-    fn parse_inline_expr(&self, code: &str, span: aelys_syntax::Span) -> Result<Expr> {
+    fn parse_inline_expr(&mut self, code: &str, span: aelys_syntax::Span) -> Result<Expr> {
         let source = Source::new("<fmt-expr>", code);
         let lexer = Lexer::with_source(Arc::clone(&source));
         let tokens = lexer.scan().map_err(|e| {
@@ -405,8 +405,13 @@ impl Parser {
             )
         })?;
 
+        // the interpolated expression is part of this expression's tree: its parser continues
+        // at the nesting depth reached here instead of starting again at zero
         let mut parser = Parser::new(tokens, source);
-        let mut expr = parser.expression().map_err(|e| {
+        parser.recursion_depth = self.recursion_depth;
+        let parsed = parser.expression();
+        self.chain_peak = self.chain_peak.max(parser.chain_peak);
+        let mut expr = parsed.map_err(|e| {
             aelys_common::error::AelysError::Compile(CompileError::new(
                 CompileErrorKind::UnexpectedToken {
                     expected: "expression".to_string(),
